@@ -1015,7 +1015,9 @@ fn parse_till<'s>(cursor: &mut Cursor<'s>, end_delim: u8) -> Result<&'s str, Err
                 ),
             ));
         } else {
-            cursor.advance(1);
+            // step over a whole character: the key may hold non-ASCII text
+            let width = cursor.rest().chars().next().map_or(1, |c| c.len_utf8());
+            cursor.advance(width);
         }
     }
     // don't include the closing delimiter
